@@ -223,7 +223,7 @@ func TestVerifC19Live(t *testing.T) {
 			defer wg.Done()
 			o.CallNs = since()
 			o.Errs["schedule"] = c19Class(sys.ScheduleOnce(ctx, &c19Msg{Ref: o.Ref}, pid, d, WithReference(o.Ref)))
-			time.Sleep(d + 700*time.Millisecond)
+			time.Sleep(d + 1500*time.Millisecond)
 		}()
 	}
 	// interval schedules, cancelled after a while
@@ -236,7 +236,7 @@ func TestVerifC19Live(t *testing.T) {
 			defer wg.Done()
 			o.CallNs = since()
 			o.Errs["schedule"] = c19Class(sys.Schedule(ctx, &c19Msg{Ref: o.Ref}, pid, iv, WithReference(o.Ref)))
-			time.Sleep(iv*6 + iv/2)
+			time.Sleep(iv*10 + iv/2)
 			o.Errs["cancel"] = c19Class(sys.CancelSchedule(o.Ref))
 			o.Marks["cancel_returned"] = since()
 			time.Sleep(iv*4 + 200*time.Millisecond)
@@ -255,14 +255,14 @@ func TestVerifC19Live(t *testing.T) {
 			defer wg.Done()
 			o.CallNs = since()
 			o.Errs["schedule"] = c19Class(sys.Schedule(ctx, &c19Msg{Ref: o.Ref}, pid, iv, WithReference(o.Ref)))
-			time.Sleep(iv*4 + iv/2)
+			time.Sleep(iv*8 + iv/2)
 			o.Errs["pause"] = c19Class(sys.PauseSchedule(o.Ref))
 			o.Marks["pause_returned"] = since()
 			time.Sleep(iv * 6)
 			o.Marks["resume_called"] = since()
 			o.Errs["resume"] = c19Class(sys.ResumeSchedule(o.Ref))
 			o.Marks["resume_returned"] = since()
-			time.Sleep(iv*5 + 100*time.Millisecond)
+			time.Sleep(iv*8 + 300*time.Millisecond)
 			o.Errs["cancel"] = c19Class(sys.CancelSchedule(o.Ref))
 			o.Marks["cancel_returned"] = since()
 			time.Sleep(iv*3 + 100*time.Millisecond)
